@@ -403,6 +403,11 @@ where
             let max = T::max_value();
             let l = T::try_from(l).unwrap_or(min);
             let r = T::try_from(r).unwrap_or(max);
+            if l > r {
+                return Err(Error::msg(
+                    "invalid range config: lower bound above upper bound",
+                ));
+            }
             u.int_in_range(l..=r)?
         }
     })
